@@ -335,6 +335,91 @@ func checkC13(p *Prog, res *Result, tier string) {
 					res.ok("C13-R3", construct, p.pos(worker.Pos()), fmt.Sprintf("%d shared-slice stores, all at the goroutine's index parameter", n))
 				}
 			}
+			// what a worker is started with is its own: a variable of the driver that the worker's function literal
+			// captured is not written by the driver once a worker may run (in the start loop, or after it): the literal
+			// reads the variable when it runs, not when it is started - a configuration struct filled per iteration and
+			// captured by reference gives most workers the last partition
+			for wi, g := range goSites {
+				mc, ok := g.Common().Value.(*ssa.MakeClosure)
+				if !ok || wi >= len(workers) {
+					continue
+				}
+				construct := fmt.Sprintf("%s: worker #%d reads no captured variable that the driver keeps writing", funcName(scanFn), wi+1)
+				var late ssa.Instruction
+				lateVar := ""
+				spawn := loopOf(g.Block())
+				for _, bnd := range mc.Bindings {
+					cell, ok := bnd.(*ssa.Alloc)
+					if !ok {
+						continue
+					}
+					// is the cell read by the worker at all?
+					var writes []ssa.Instruction
+					var collect func(addr ssa.Value, d int)
+					collect = func(addr ssa.Value, d int) {
+						if d > 3 || addr.Referrers() == nil {
+							return
+						}
+						for _, ref := range *addr.Referrers() {
+							switch x := ref.(type) {
+							case *ssa.Store:
+								if x.Addr == addr && x.Parent() == g.Parent() {
+									writes = append(writes, x)
+								}
+							case *ssa.FieldAddr:
+								collect(x, d+1)
+							case *ssa.IndexAddr:
+								// element stores into a captured array/slice variable are the per-index hand-off (checked above)
+							}
+						}
+					}
+					collect(cell, 0)
+					for _, w := range writes {
+						inLoop := spawn != nil && spawn[w.Block()]
+						after := false
+						if !inLoop {
+							pa := posOf(g)
+							hit, _ := searchFrom(pa.b, pa.i+1, searchOpts{bad: func(i ssa.Instruction) bool { return i == w }})
+							after = hit != nil
+						}
+						if inLoop || after {
+							late, lateVar = w, cell.Comment
+						}
+					}
+				}
+				// .. nor do the workers themselves assign a captured variable (they are many, the variable is one)
+				if late == nil && spawn != nil {
+					w := workers[wi]
+					for _, b := range w.Blocks {
+						for _, ins := range b.Instrs {
+							st, ok := ins.(*ssa.Store)
+							if !ok {
+								continue
+							}
+							addr := st.Addr
+							for {
+								if fa, ok := addr.(*ssa.FieldAddr); ok {
+									addr = fa.X
+									continue
+								}
+								break
+							}
+							if fv, ok := addr.(*ssa.FreeVar); ok {
+								late, lateVar = st, fv.Name()
+							}
+						}
+					}
+					if late != nil {
+						res.bad("C13-R3", construct, p.pos(late.Pos()), "every worker goroutine assigns the captured variable '"+lateVar+"' of the driver (or a field of it): the workers overwrite each other's value before it is used (a worker scans another worker's partition - keys missing, others twice), and the accesses race")
+						continue
+					}
+				}
+				if late != nil {
+					res.bad("C13-R3", construct, p.pos(late.Pos()), "the driver writes the variable '"+lateVar+"' that the worker's function literal captured by reference, inside or after the loop that starts the workers: a worker reads whatever the loop has written by the time it runs (another partition's configuration - keys of one partition missing, another returned twice), and the accesses race")
+				} else {
+					res.ok("C13-R3", construct, p.pos(g.Pos()), "captured variables are written only before the start loop (or element-wise at the worker's index)")
+				}
+			}
 			// merge happens after Wait on every path of the driver (helpers inlined), ranging over the receiver list in
 			// index order
 			isMerge := func(ins ssa.Instruction) bool {
